@@ -35,7 +35,7 @@ def gen_case(seed, tier):
     sc = stream(seed, "sched")
     prog = progen.gen_program(cfg, OPTS)
     n = cfg.randint(10, 70) if tier == "quick" else cfg.randint(10, 200)
-    steps = progdrv.gen_steps(prog, wl, fl, n, p_reset=fl.choice([0.0, 0.05, 0.15]), p_coincide=fl.choice([0.0, 0.3, 0.7]))
+    steps = progdrv.gen_steps(prog, wl, fl, n, p_reset=fl.choice([0.0, 0.05, 0.15]), p_coincide=fl.choice([0.0, 0.3, 0.7]), p_mixed=fl.choice([0.0, 0.1, 0.25]))
     return {"prog": prog, "sched": {"mode": sc.choice(["seeded", "seeded", "reverse", "insertion"]), "seed": sc.randrange(1 << 32)},
             "steps": steps}
 
